@@ -32,9 +32,12 @@ CHECKS = {
             "transfer/require options returns the columns and rows (values, multiplicity, order) of the plain application, "
             "in the target's engine or (transfer=True only) the preferred one; the same for a TARGET IN A SQL ENGINE (any raw "
             "SQL tree incl. chains and joins) with a preferred engine of either family and every option combination "
-            "(apply_on_sql_target_sound, via the tree-building induction of C17). Proof (partial): a Projection past a "
-            "Deduplication (finding F04) is excluded by hypothesis; joins and back-tracking from an iteration-engine "
-            "target into a SQL engine are validated by correspondence + oracle. The proof attempt itself exposed three genuine defects, now repaired. " + CORR,
+            "(apply_on_sql_target_sound, via the tree-building induction of C17); back-tracking from an iteration-engine "
+            "target INTO a SQL preferred engine (the operation is handed to the SQL engine's own apply below the transfer "
+            "that leads there) and apply with such a preferred engine for every backtrack/require combination with "
+            "transfer=False (backtracking_sound_any_preferred_engine, apply_with_sql_preferred_engine_sound). Proof "
+            "(partial): a Projection past a Deduplication (finding F04) is excluded by hypothesis; joins, and transfer=True "
+            "towards a SQL preferred engine from an iteration-engine target, are validated by correspondence + oracle. The proof attempt itself exposed three genuine defects, now repaired. " + CORR,
             "", "DESIGN.md 5/C03"),
     "C04": (PR, "Lean 4 theorem commute_sound_partial over all 49 operation-class pairs + machine-checked counterexample for the one unsound pair + correspondence",
             "Machine-checked for every pair of unary operations with arbitrary parameters, every target column set and "
